@@ -87,6 +87,19 @@ def run_batch(ctx, n, with_model=True):
                                                  for _, t, envs in cases], jobs=12)
         except Exception as ex:  # noqa
             ctx.obligation_breaks.append({"what": "model-driver-run", "detail": repr(ex)[:400]})
+    # cases outside the model's value domain (object identity, unhashable containers): generated module against evaluator only
+    extra = []
+    nan = float("nan")
+    for op, rhs in (("in", ("tuple", [("id", "y")])), ("not in", ("tuple", [("id", "y")])), ("in", ("tuple", [("id", "y"), ("lit", gen.lit_int(1))])),
+                    ("==", ("id", "y")), ("!=", ("id", "y")), ("in", ("tuple", [("tuple", [("id", "y")])]))):
+        p = gen.Program("ident", None, ["u"], ("if", ("cmp", ("id", "x"), op, rhs), ("ret", [(L("T"), "1")]), ("else", ("ret", [(L("F"), "1")]))), {"u": "any", "x": "any", "y": "any"})
+        shared = [1, 2]
+        extra.append((p, gen.render(p), [{"u": 1, "x": nan, "y": nan}, {"u": 1, "x": float("nan"), "y": float("nan")}, {"u": 1, "x": shared, "y": shared}, {"u": 1, "x": [1, 2], "y": [1, 2]},
+                                        {"u": 1, "x": (nan,), "y": (nan,)}, {"u": 1, "x": 1, "y": True}]))
+    for c in gen.membership_cases(rng, 40 if ctx.tier == "quick" else 600):
+        extra.append((c["prog"], c["text"], c["envs"]))
+    cases += extra
+    models += [None] * len(extra)
     for (prog, text, envs), m in zip(cases, models):
         ctx.case(text, True, sample={"text": text[:300]})
         try:
